@@ -263,7 +263,9 @@ Qed.
 Theorem input_error_status c tmpl : forall args ls cur p st, forallb nonfatal (outs st) = true ->
   fst (process_x c tmpl ls cur p args true st) = 1.
 Proof.
-  induction args as [|a rest IH]; intros ls cur p st H; [reflexivity|].
+  induction args as [|a rest IH]; intros ls cur p st H.
+  { cbn [process_x]. destruct p; [|reflexivity].
+    destruct (exec_nonfatal_cases c st cur H) as [(st' & E & _)|(l & E)]; rewrite E; reflexivity. }
   cbn [process_x]. destruct (try_arg ls a).
   { destruct (c_replace c); [|now apply IH].
     destruct (exec_nonfatal_cases c st (cur ++ [a]) H) as [(st' & E & H')|(l & E)]; rewrite E; [now apply IH|reflexivity]. }
@@ -373,4 +375,35 @@ Proof.
   rewrite (replace_eager c tmpl Hr) by (eapply Forall_impl; [|exact Hl]; intros a [H _]; exact H).
   rewrite (exec_all_fatal c pre o post); cbn [outs log app finish_lines]; rewrite ?map_length; auto.
   now apply (single_runs c tmpl).
+Qed.
+
+(* ---------- an input error does not take the arguments read before it away ---------- *)
+(* the same configuration with -r: at the end of the input a command is run only if arguments are pending *)
+Definition with_r (c : config) : config :=
+  {| c_n := c_n c; c_L := c_L c; c_s := c_s c; c_x := c_x c; c_r := true; c_sys := c_sys c; c_init := c_init c;
+     c_replace := c_replace c; c_subst := c_subst c |}.
+
+(* The invocations made when the reader fails after [args] (an unterminated quote, a read error) are exactly the invocations of
+   the run on [args] alone under -r: every complete argument is delivered, in the same batches; only then is the error reported
+   (status 1 unless a child outcome was fatal: input_error_status). *)
+Theorem input_error_invocations c tmpl : forall args ls cur p st,
+  snd (process_x c tmpl ls cur p args true st) = snd (process_x (with_r c) tmpl ls cur p args false st).
+Proof.
+  induction args as [|a rest IH]; intros ls cur p st.
+  - cbn [process_x with_r c_r negb orb]. destruct p; [|reflexivity].
+    change (exec (with_r c) st cur) with (exec c st cur).
+    destruct (exec c st cur); reflexivity.
+  - cbn [process_x]. change (c_replace (with_r c)) with (c_replace c).
+    change (fatalf (with_r c) ls a) with (fatalf c ls a).
+    destruct (try_arg ls a).
+    + destruct (c_replace c); [|apply IH].
+      change (exec (with_r c) st (cur ++ [a])) with (exec c st (cur ++ [a])).
+      destruct (exec c st (cur ++ [a])); [apply IH|reflexivity].
+    + destruct (fatalf c ls a); [reflexivity|].
+      change (exec (with_r c) st cur) with (exec c st cur).
+      destruct (if p then exec c st cur else inl st) as [st'|stop]; [|reflexivity].
+      destruct (try_arg tmpl a); [|reflexivity].
+      destruct (c_replace c); [|apply IH].
+      change (exec (with_r c) st' [a]) with (exec c st' [a]).
+      destruct (exec c st' [a]); [apply IH|reflexivity].
 Qed.
